@@ -119,6 +119,29 @@ theorem merge_updates_in_range (hy : Hyp c p₀) (h : Reach c p₀ s) (p : Nat) 
   unfold PwFits
   omega
 
+/-- With a single task (a pool of one worker, or fewer vertices than workers need) the task's
+thread-local array IS the vector of true loads at every step, hence never negative: in that case
+no subtraction of the pass underflows an unsigned weight type either.  (For several tasks no
+lower bound is proved, see the header.) -/
+theorem single_task_pw_is_load (hy : Hyp c p₀) (h : Reach c p₀ s) (hone : c.threadCount = 1)
+    {t : Task} (ht : t ∈ s.tasks) (p : Nat) (hp : p < c.partCount) :
+    t.pw.getD p 0 = Coupe.load c.w s.parts p ∧ 0 ≤ t.pw.getD p 0 := by
+  have h2 := inv2_reach hy h
+  have hlen : s.tasks.length = 1 := by rw [h2.ntasks, hone]
+  obtain ⟨t', ht'⟩ : ∃ t', s.tasks = [t'] := by
+    match hs : s.tasks with
+    | [] => rw [hs] at hlen; simp at hlen
+    | [a] => exact ⟨a, rfl⟩
+    | _ :: _ :: _ => rw [hs] at hlen; simp at hlen
+  rw [ht'] at ht
+  have : t = t' := by simpa using ht
+  subst this
+  have hl := h2.loadAcct p hp
+  rw [ht'] at hl
+  simp only [List.map_cons, List.map_nil, List.sum_cons, List.sum_nil] at hl
+  have h0 := load_nonneg c.w s.parts p hy.wnonneg
+  constructor <;> omega
+
 /-- The old merge's intermediate value: while no task has moved anything (e.g. a pass that
 finds no improving move — every run ends with one) the summed arrays hold
 `thread_count × PW`. -/
@@ -167,5 +190,6 @@ end Coupe.ArcSwap
 #print axioms Coupe.ArcSwap.merge_losses_in_range
 #print axioms Coupe.ArcSwap.merge_task_in_range
 #print axioms Coupe.ArcSwap.merge_updates_in_range
+#print axioms Coupe.ArcSwap.single_task_pw_is_load
 #print axioms Coupe.ArcSwap.old_merge_sum_idle
 #print axioms Coupe.ArcSwap.old_merge_leaves_range
